@@ -158,6 +158,12 @@ def run(ctx):
         r = "lift " + instgen.to_bytes(words).hex()
         reqs.append(r)
         oracle.add(r, version, exp)
+        if rnd.random() < 0.3:
+            # a `dr::Module` can carry any word as its header version (public field); the lifted module preserves *the word*
+            vw = rnd.choice([0x00010301, 0x01010300, 0xdeadbeef, 0xffffffff, 0, 0x000103ff, rnd.randrange(1 << 32)])
+            r2 = f"liftv {vw} " + instgen.to_bytes(words).hex()
+            reqs.append(r2)
+            oracle.add(r2, vw, exp)
         for _, i, _ in exp["ops"]:
             used.add(i.name)
     # outside the subset: the model must still agree (errors and panics included)
